@@ -91,6 +91,21 @@ def gen(ctx, outside=True):
         else:
             op = r.choice(["GetItem", "PutItem", rstr(r, UNRES, 0, hi)])
             cases.append("ddb %s %s %s %s %s %d" % (hx(key_id), hx(secret), hx(region), hx(op), body, t))
+        # a caller that re-uses its buffer: the next request has a body of the SAME length (the driver
+        # then passes the same address) with other contents - and, half the time, everything else equal
+        if kind != "s3q" and body not in ("NULL", "-") and r.random() < 0.3:
+            ln = len(body) // 2
+            if ln % 2 == 0:     # the driver re-uses the address for odd lengths
+                ln += 1
+                tok = cases[-1].split()
+                tok[-2] = bytes(r.randrange(256) for _ in range(ln)).hex()
+                cases[-1] = " ".join(tok)
+            tok = cases[-1].split()
+            tok[-2] = bytes(r.randrange(256) for _ in range(ln)).hex()
+            if r.random() < 0.5:
+                tok[-1] = str(r.choice(TIMES))
+            cases.append(" ".join(tok))
+            ctx.count("aws.body.same_buffer_reused_with_other_contents")
     return cases
 
 
